@@ -4,10 +4,12 @@ from evalutil import *
 
 ID = "C13"
 LEVEL = "proof"
-MODULES = ["H3Proofs.Props.C13", "H3Proofs.Props.C13Bij", "H3Proofs.Props.C04Valid"]
+MODULES = ["H3Proofs.Props.C13", "H3Proofs.Props.C13Bij", "H3Proofs.Props.C04Valid", "H3Proofs.Props.C13Refine"]
 THEOREMS = "auto"
-ASSUMPTIONS = ["hand-written model of cellToChildPos/childPosToCell/validateChildPos/_ipow tied to the code by "
-               "the correspondence check"]
+ASSUMPTIONS = ["hand-written loop-faithful model of cellToChildPos/childPosToCell/validateChildPos/_ipow tied to the code "
+               "by the correspondence check; the specification-level model the bijection theorems are about is PROVED equal "
+               "to the loop-faithful one for all inputs (C13Refine: childPosToCell_eq, cellToChildPos_eq)"]
+NOT_PROVED = []
 EXPLANATION = ("position <-> child theorems about the model + correspondence; the evaluator compares the real "
                "functions with an independent python rank/unrank over the digit tree at every depth 0..15")
 
